@@ -101,6 +101,10 @@ def facts():
     imp = body_of(styh, r"\baddImport\(Stylesheet\*")
     internal = body_of(root, r"StylesheetRoot::internalShouldStripSourceNode\(")
     should = body_of(rooth, r"\bshouldStripSourceNode\(const XalanText&")
+    walk = body_of(root, r"\nisXMLSpacePreserved\(const XalanNode\*")
+
+    def wfact(rx):
+        return "absent" if walk is None else fact(walk, rx)
     return [
         ("addWhitespaceElement.compare", fact(add, r"(if \(theMatchScore [<>=!]+ \(\*i\)\.getMatchScore\(\)\))")),
         ("addWhitespaceElement.insert", fact(add, r"(m_whitespaceElements\.insert\([^;]*\);)")),
@@ -111,6 +115,12 @@ def facts():
         ("internalShouldStrip.parentKind", fact(internal, r"(if \(parent->getNodeType\(\) == XalanNode::\w+\))")),
         ("internalShouldStrip.noParent", fact(internal, r"(if \(parent == 0\) return \w+;)")),
         ("internalShouldStrip.default", fact(internal, r"\} (return \w+;) \}$")),
+        # the xml:space walk (XSLT 3.4, third bullet); "absent" on a tree without it (known finding C13-xml-space-preserve-ignored)
+        ("xmlSpace.loop", wfact(r"(while \(theElement != 0 && theElement->getNodeType\(\) == XalanNode::ELEMENT_NODE\))")),
+        ("xmlSpace.lookup", wfact(r"(theAttributes->getNamedItem\(Constants::\w+\);)")),
+        ("xmlSpace.decide", wfact(r"(if \(theSpaceAttribute != 0\) \{ return equals\( theSpaceAttribute->getNodeValue\(\), Constants::\w+\); \})")),
+        ("xmlSpace.ascend", wfact(r"(theElement = theElement->getParentNode\(\);)")),
+        ("xmlSpace.default", wfact(r"\} (return \w+;) \}$")),
         ("shouldStrip.guard", fact(should, r"(if \(hasPreserveOrStripSpaceElements\(\) == true && theNode\.isWhitespace\(\) == true\) \{ return internalShouldStripSourceNode\(theNode\); \} return false;)")),
     ]
 
